@@ -1,11 +1,15 @@
-/* harness/attrtree/_tree.h -- common part of the BOUNDED plain-CBMC jobs tree_*: a tree of five value nodes built by the
- * REAL attr_tree_create / attr_tree_add_value_node (real attr_path_parse, ensure_containers, attr_node_dict_add_key,
- * attr_node_list_append):
+/* harness/attrtree/_tree.h -- common part of the BOUNDED plain-CBMC jobs tree_*: a tree of five value nodes
  *      "a"      root dictionary key                     node 0
  *      "b.c"    key of a dictionary below the root      node 1
  *      "b.d"                                            node 2
  *      "l[0]"   element of a list below the root        node 3
  *      "l[1]"                                           node 4
+ * The nodes are made by the REAL attr_tree_create / attr_node_value / attr_node_dict / attr_node_list; the TAILQ links
+ * between them are written here MEMBER BY MEMBER (tb_link_*), i.e. the state TAILQ_INSERT_TAIL leaves behind, instead of
+ * calling attr_tree_add_value_node: CBMC 6.11 loses a store made through a pointer to a member of a union
+ * (`*(head)->tqh_last = elm` with struct attr_node's anonymous union: the field-sensitive constant propagation of symex
+ * does not see that dict.tqh_first and value.type overlap; 12-line reproducer in the unit's report; --no-propagation
+ * avoids it at a cost that exhausts memory here).  For the same reason attr_tree_destroy (TAILQ_REMOVE) is not run.
  * Each node has an ARBITRARY type among the five, and independently a setter and/or a getter or none.  The callbacks have
  * bodies here (plain CBMC, no contracts): they identify the node by its context pointer (&tb_ctx[i]), count their calls,
  * record their arguments and return an arbitrary, per-node fixed result. */
@@ -18,6 +22,15 @@ static int tb_type[TB_N]; static _Bool tb_has_set[TB_N], tb_has_get[TB_N];
 static int tb_get_rv[TB_N], tb_get_errno[TB_N], tb_set_rv[TB_N], tb_set_errno[TB_N]; static size_t tb_need[TB_N];
 static int tb_get_calls[TB_N], tb_set_calls[TB_N], tb_get_total, tb_set_total, tb_bad_ctx;
 static void *tb_last_buf; static size_t tb_last_cap; static const void *tb_last_val; static size_t tb_last_len; static struct xcm_socket *tb_last_sock;
+/* libxcm/core/log_attr_tree.c (formats every value read, see contracts/attrtree.h): body for the plain-CBMC jobs; what it
+ * reads of the value for each type is asserted to be readable */
+void log_attr_str_value(enum xcm_attr_type type, const void *value, size_t len, char *buf, size_t capacity)
+{
+    size_t n = type == xcm_attr_type_bool ? sizeof(bool) : (type == xcm_attr_type_int64 || type == xcm_attr_type_double) ? 8 : len;
+    __CPROVER_assert(n == 0 || __CPROVER_r_ok(value, n), "log_attr_str_value: the value formatted for the log is readable");
+    __CPROVER_assert(capacity >= 1 && __CPROVER_w_ok(buf, capacity), "log_attr_str_value: text buffer");
+    buf[0] = 0;
+}
 static int tb_index(void *context)
 {
     int i;
@@ -48,6 +61,18 @@ static int tb_setter(struct xcm_socket *s, void *context, const void *value, siz
     if (tb_set_rv[i] < 0) { errno = tb_set_errno[i]; return -1; }
     return 0;
 }
+static struct attr_node_dict_elem *tb_delem(const char *key, struct attr_node *node)
+{
+    struct attr_node_dict_elem *e = ut_malloc(sizeof(struct attr_node_dict_elem));
+    e->key = ut_strdup(key); e->node = node;
+    return e;
+}
+static struct attr_node_list_elem *tb_lelem(struct attr_node *node)
+{
+    struct attr_node_list_elem *e = ut_malloc(sizeof(struct attr_node_list_elem));
+    e->node = node;
+    return e;
+}
 static struct attr_tree *tb_build(void)
 {
     int i;
@@ -56,7 +81,9 @@ static struct attr_tree *tb_build(void)
         tb_type[i] = nondet_int(); __CPROVER_assume(tb_type[i] >= 1 && tb_type[i] <= 5);
         tb_has_set[i] = nondet_bool(); tb_has_get[i] = nondet_bool();
         tb_need[i] = nondet_size_t(); __CPROVER_assume(tb_need[i] <= 512);
-        tb_get_rv[i] = nondet_int(); __CPROVER_assume(tb_get_rv[i] >= -1 && (tb_get_rv[i] < 0 || (size_t)tb_get_rv[i] <= tb_need[i]));
+        tb_get_rv[i] = nondet_int(); __CPROVER_assume(tb_get_rv[i] >= -1 && (tb_get_rv[i] < 0 || (size_t)tb_get_rv[i] == tb_need[i]));
+        /* a successful getter returns the size of the value; bool/int64/double values have their fixed size */
+        __CPROVER_assume(tb_type[i] == xcm_attr_type_bool ? tb_need[i] == sizeof(bool) : (tb_type[i] == xcm_attr_type_int64 || tb_type[i] == xcm_attr_type_double) ? tb_need[i] == 8 : 1);
         tb_get_errno[i] = nondet_int(); __CPROVER_assume(tb_get_errno[i] > 0 && tb_get_errno[i] != EOVERFLOW);
         tb_set_rv[i] = nondet_int(); __CPROVER_assume(tb_set_rv[i] == 0 || tb_set_rv[i] == -1);
         tb_set_errno[i] = nondet_int(); __CPROVER_assume(tb_set_errno[i] > 0);
@@ -64,9 +91,26 @@ static struct attr_tree *tb_build(void)
     }
     tb_get_total = 0; tb_set_total = 0; tb_bad_ctx = 0;
     struct attr_tree *tree = attr_tree_create();
+    struct attr_node *v[TB_N];
     for (i = 0; i < TB_N; i++)      /* loop tb_build.1 */
-        attr_tree_add_value_node(tree, tb_name[i], tb_sock, &tb_ctx[i], (enum xcm_attr_type)tb_type[i],
-                                 tb_has_set[i] ? tb_setter : NULL, tb_has_get[i] ? tb_getter : NULL);
+        v[i] = attr_node_value(tb_sock, &tb_ctx[i], (enum xcm_attr_type)tb_type[i], tb_has_set[i] ? tb_setter : NULL, tb_has_get[i] ? tb_getter : NULL);
+    struct attr_node *b = attr_node_dict(), *l = attr_node_list();
+    struct attr_node_dict_elem *ra = tb_delem("a", v[0]), *rb = tb_delem("b", b), *rl = tb_delem("l", l);
+    struct attr_node_dict_elem *bc = tb_delem("c", v[1]), *bd = tb_delem("d", v[2]);
+    struct attr_node_list_elem *l0 = tb_lelem(v[3]), *l1 = tb_lelem(v[4]);
+    /* root: a, b, l */
+    tree->root->dict.tqh_first = ra; ra->entry.tqe_prev = &tree->root->dict.tqh_first;
+    ra->entry.tqe_next = rb; rb->entry.tqe_prev = &ra->entry.tqe_next;
+    rb->entry.tqe_next = rl; rl->entry.tqe_prev = &rb->entry.tqe_next;
+    rl->entry.tqe_next = NULL; tree->root->dict.tqh_last = &rl->entry.tqe_next;
+    /* b: c, d */
+    b->dict.tqh_first = bc; bc->entry.tqe_prev = &b->dict.tqh_first;
+    bc->entry.tqe_next = bd; bd->entry.tqe_prev = &bc->entry.tqe_next;
+    bd->entry.tqe_next = NULL; b->dict.tqh_last = &bd->entry.tqe_next;
+    /* l: [0], [1] */
+    l->list.tqh_first = l0; l0->entry.tqe_prev = &l->list.tqh_first;
+    l0->entry.tqe_next = l1; l1->entry.tqe_prev = &l0->entry.tqe_next;
+    l1->entry.tqe_next = NULL; l->list.tqh_last = &l1->entry.tqe_next;
     return tree;
 }
 static _Bool tb_streq(const char *a, const char *b)
@@ -84,14 +128,14 @@ static _Bool tb_has_bracket(const char *a)
         if (a[i] == '[') return 1;
     return 0;
 }
-/* which node a name denotes: 0..4 a value node, -2 a container ("b", "l"), -1 nothing */
+/* which node a name denotes: 0..4 a value node, -2 a container ("", "b", "l"), -1 nothing */
 static int tb_resolve(const char *q)
 {
     int i;
     for (i = 0; i < TB_N; i++)      /* loop tb_resolve.0 */
         if (tb_streq(q, tb_name[i]))
             return i;
-    if (tb_streq(q, "b") || tb_streq(q, "l"))
+    if (tb_streq(q, "") || tb_streq(q, "b") || tb_streq(q, "l"))        /* "" is the root dictionary */
         return -2;
     return -1;
 }
